@@ -11,7 +11,9 @@ def run(tier, seed):
                            '9 model specifications (SIS, weighted recurrent SIS, SIRS with rate functions, weighted SIR, SIRS, SEIR, two competing diseases, a same-status pair rule, asymmetric rate functions) x directed and undirected '
                            '5-node graphs x 6 random initial conditions; scripted random source: (a) at EVERY step the waiting time is drawn with the sum of the rates of all '
                            'enabled transitions of the current statuses (recomputed from the specification), exactly one node changes and the change is an enabled transition; '
-                           '(b) over a grid of 400 values of the selecting uniform draw each transition type is chosen for a fraction of the draws equal to its rate share +- 2/400'))
+                           '(b) over a grid of 400 values of the selecting uniform draw each transition type is chosen for a fraction of the draws equal to its rate share +- 2/400; '
+                           '(c) the same scripted run asked for as plain arrays with a subset of the statuses, with tmin != 0, with a defaultdict initial condition (which must not gain keys) and '
+                           'through the legacy wrapper Gillespie_Arbitrary gives the head counts of the full-data run'))
     rep.bounded_is_supplementary = False
     rep.level = 'other'
     rep.explanation = ('Bounded only: Gillespie_simple_contagion keeps its candidate sets in dictionaries keyed by transition (networkx edge tuples of the two specification graphs) '
